@@ -165,6 +165,9 @@ pub struct ActorSpec {
     /// done inside `started()` (every incarnation)
     pub on_start: Vec<Work>,
     pub stream: Option<StreamSpec>,
+    /// how often `stopped()` yields before it returns (so that things can happen "during stopped")
+    #[serde(default)]
+    pub stopped_yields: u32,
 }
 impl Default for ActorSpec {
     fn default() -> Self {
@@ -177,6 +180,7 @@ impl Default for ActorSpec {
             entry: Entry::Spawn,
             on_start: vec![],
             stream: None,
+            stopped_yields: 0,
         }
     }
 }
@@ -241,6 +245,12 @@ pub enum Op {
     Consume { h: Slot },
     ConsumeSync { h: Slot },
     Detach { h: Slot, to: Slot },
+    /// `let f = owning.join(); drop(owning); f.await` - the way to observe the value after the last drop
+    DropThenJoin { h: Slot },
+    /// create a join future now and keep it ...
+    JoinStart { h: Slot },
+    /// ... and await the oldest kept join future
+    JoinFinish,
 
     // ---- handle manipulation
     Clone { h: Slot, to: Slot },
